@@ -37,14 +37,26 @@ func Sum(segmentSlices ...[]*traits.ElectricMode_Segment) []*traits.ElectricMode
 		lastTime = cut.at
 	}
 
+	// The open last segment is the tail of the sum. It is kept only if it contributes something and some
+	// input is unbounded: when every input is bounded all edges cancel, so whatever is left is rounding residue.
 	if len(result) > 0 {
 		last := result[len(result)-1]
-		if last.Length == nil && last.Magnitude <= 0 {
+		if last.Length == nil && (last.Magnitude == 0 || !anyInfinite(segmentSlices)) {
 			result = result[:len(result)-1]
 		}
 	}
 
 	return result
+}
+
+// anyInfinite reports whether any of the segment lists has a segment without a length.
+func anyInfinite(segmentSlices [][]*traits.ElectricMode_Segment) bool {
+	for _, slice := range segmentSlices {
+		if _, infinite := Duration(slice...); infinite {
+			return true
+		}
+	}
+	return false
 }
 
 func calcCuts(segmentSlices ...[]*traits.ElectricMode_Segment) []cut {
